@@ -45,6 +45,9 @@ class UpgradeFamily(ScenarioFamily):
               "consume": {"upgrade_read_all": {"total": len(data), "max_bytes": mbs,
                                                "writes": writes, "timeout": 2.0}},
               "timeouts": {"read": 2.0}}
+        body_when = r.choice(["never", "never", "first", "first", "last"])
+        if body_when != "never":
+            op["consume"]["upgrade_read_all"]["body"] = body_when
         if mode == "connect":
             op["target"] = b"a.test:%d" % port
         plan2 = {"status": 200, "reason": b"OK", "framing": "cl", "body_len": 3,
